@@ -237,7 +237,7 @@ func (c *Ctx) stdoutWriters(skip map[*ssa.Function]bool) map[*ssa.Function]strin
 			continue
 		}
 		instrsOf(fn, func(in ssa.Instruction) {
-			if isCallTo(in, "fmt", "Print", "Printf", "Println") {
+			if isCallTo(in, "fmt", "Print", "Printf", "Println") && !inDebugStatementArm(in) {
 				direct[fn] = "calls fmt." + staticCallee(in).Name() + " [" + c.pos(in.Pos()) + "]"
 			}
 			// os.Stdout used as a value
@@ -970,4 +970,48 @@ func ruleCLIOpenForWriting(c *Ctx, rule string) {
 		})
 	}
 	r.Stats["main_output_file_writes"] = nw
+}
+
+// inDebugStatementArm: the instruction executes only in the arm of a type switch (or behind a type assertion) that has found the
+// `debug` statement of the process language: its print is what the program asked for (the same frozen exception as executeDebug,
+// by role instead of by name).
+func inDebugStatementArm(in ssa.Instruction) bool {
+	b := in.Block()
+	for _, d := range b.Parent().Blocks {
+		if d != b && !d.Dominates(b) {
+			continue
+		}
+		for _, x := range d.Instrs {
+			ta, ok := x.(*ssa.TypeAssert)
+			if !ok {
+				continue
+			}
+			nt, ok := deref(ta.AssertedType).(*types.Named)
+			if !ok || nt.Obj().Name() != "AstProcessDebug" {
+				continue
+			}
+			if !ta.CommaOk {
+				if d != b || instrIndex(ta) < instrIndex(in) {
+					return true
+				}
+				continue
+			}
+			// the arm taken when the assertion succeeded
+			for _, ref := range *ta.Referrers() {
+				ex, ok := ref.(*ssa.Extract)
+				if !ok || ex.Index != 1 {
+					continue
+				}
+				for _, r2 := range *ex.Referrers() {
+					if iff, ok := r2.(*ssa.If); ok {
+						arm := iff.Block().Succs[0]
+						if arm == b || arm.Dominates(b) {
+							return true
+						}
+					}
+				}
+			}
+		}
+	}
+	return false
 }
